@@ -53,8 +53,10 @@ func perturbFamily(nmin, nmax int, basePatterns, pertPatterns []int) func(emit f
 
 func plan(tier string) []family {
 	all := []int{0, 1, 2, 3}
+	spell := family{"clock spelling alphabet: every spelling of an edit-clock / create-clock / version entry on one of two concurrent commits, on a parent or a child, on the root", "G", 96, SpellingFamily}
 	if tier != "thorough" {
 		return []family{
+			spell,
 			{"valid histories and single perturbations, N<=4 commits, all content patterns", "G", 96, perturbFamily(1, 4, all, all)},
 			{"full cross product of clock options, N<=4 commits, all content patterns (mockRepo)", "M", 512, fullFamily(4, all)},
 			{"valid histories and single perturbations, N=5 commits, all content patterns (mockRepo)", "M", 512, perturbFamily(5, 5, all, all)},
@@ -62,6 +64,7 @@ func plan(tier string) []family {
 		}
 	}
 	return []family{
+		spell,
 		{"valid histories and single perturbations, N<=5 commits, all content patterns", "G", 96, perturbFamily(1, 5, all, all)},
 		{"full cross product of clock options, N<=4 commits, content patterns 2 and 3 (mockRepo)", "M", 512, fullFamily(4, []int{2, 3})},
 		{"valid histories (content patterns 0, 1) and single perturbations (pattern 1), N=6 commits (mockRepo)", "M", 512, perturbFamily(6, 6, []int{0, 1}, []int{1})},
@@ -85,7 +88,9 @@ const Rule = "space B: every single-headed commit DAG shape with N commits (comm
 	"x content patterns (pack sizes 1-2, two authors, pack ids ascending or descending with the commit index so that every tie is broken both ways); " +
 	"'perturbation' families take every parent<child clock vector over 1..N+1 and every single perturbation of it (any other clock option of one commit incl. " +
 	"two clock entries of equal or different value, merge commit with 1-2 operations, ordinary commit without operations, commit cut from its parents with/without a creation time, " +
-	"creation time on a later commit, root creation time absent/zero/duplicated). Each history is classified by the reference reader (valid / invalid:<reasons> / silent) and " +
+	"creation time on a later commit, root creation time absent/zero/duplicated); the 'clock spelling' family writes the number of an edit-clock / create-clock / version entry as " +
+	"canonical decimal, with leading zeros, 0x/0b/0o prefix, underscore, sign, leading/trailing blank, empty, full-width digits, 20 digits (read by the reference as the documented format does: " +
+	"one non-negative decimal integer, anything else must be refused) on one of two concurrent commits, on a parent or child with every neighbouring value of the other, and on the root. Each history is classified by the reference reader (valid / invalid:<reasons> / silent) and " +
 	"read 3x on replica A with unrelated refs present, merged and read (Read and ReadAll) on replica B after push/fetch, and read on mockRepo."
 
 // Run enumerates space B and reports violations through rep. The returned coverage is merged
@@ -275,6 +280,7 @@ func Run(tier string, seed uint64, rep *evidence.Reporter, deadline time.Time) (
 	classes := map[string]int{}
 	refusals := map[string]int{}
 	perms := map[string]int{}
+	spellings := map[string]int{}
 	other := map[string]int{}
 	for k, v := range counts {
 		switch {
@@ -284,6 +290,8 @@ func Run(tier string, seed uint64, rep *evidence.Reporter, deadline time.Time) (
 			refusals[strings.TrimPrefix(k, "refused_with ")] = v
 		case strings.HasPrefix(k, "perm "):
 			perms[strings.TrimPrefix(k, "perm ")] = v
+		case strings.HasPrefix(k, "spelling "):
+			spellings[strings.TrimPrefix(k, "spelling ")] = v
 		default:
 			other[k] = v
 		}
@@ -299,12 +307,13 @@ func Run(tier string, seed uint64, rep *evidence.Reporter, deadline time.Time) (
 		samples = samples[:6]
 	}
 	cov = map[string]any{
-		"histories":                      total,
-		"families":                       famInfo,
-		"histories_by_reference_verdict": classes,
-		"distinct_reference_verdicts":    len(classes),
-		"read_refusals_by_error":         refusals,
-		"distinct_valid_orders":          len(perms),
+		"histories":                                       total,
+		"families":                                        famInfo,
+		"histories_by_reference_verdict":                  classes,
+		"distinct_reference_verdicts":                     len(classes),
+		"read_refusals_by_error":                          refusals,
+		"spelling_histories_by_class_verdict_outcome":     spellings,
+		"distinct_valid_orders":                           len(perms),
 		"distinct_valid_orders_not_in_commit_index_order": nonIdentity,
 		"worker_deaths_not_reproduced":                    unreproduced,
 		"counters":                                        other,
